@@ -1,6 +1,6 @@
 """C16: DECODE-NOPANIC, DECODE-TAKE-ONCE, DECODE-RESULT-UNWRAP over the decode closure."""
 from vlib.flow import Tracer, chain_calls, chain_calls_ip
-from vlib.mir import callee_name, op_local, op_place, strip_generics
+from vlib.mir import callee_name, op_local, op_place, op_const, strip_generics
 
 PANIC_CALLS = {
     "std::option::Option::unwrap": "unwrap", "std::option::Option::expect": "expect",
@@ -102,9 +102,11 @@ def _range_clamped(f, b, t):
         end = parts[1]
     else:
         end = parts[0]
+    vec = expr_strip_blocks(ex.of_operand(t["args"][0]))
+    if end[0] == "var":
+        return _clamped_local(f, ex, end[1], vec)
     if end[0] != "call" or not end[1].endswith("::min") or len(end[2]) != 2:
         return False
-    vec = expr_strip_blocks(ex.of_operand(t["args"][0]))
     for x in end[2]:
         if x[0] == "call" and x[1].endswith("::len") and len(x[2]) == 1:
             inner = x[2][0]
@@ -112,6 +114,55 @@ def _range_clamped(f, b, t):
             if repr(inner) == repr(vec) or repr(inner) in repr(vec) or repr(vec) in repr(inner):
                 return True
     return False
+
+
+def _clamped_local(f, ex, l, vec):
+    """`let end = if v.len() > K { K } else { v.len() };`: every definition of the local is len(v) itself, or a constant assigned behind an edge that says len(v) exceeds it"""
+    from vlib.flow import expr_strip_blocks, edge_label, relation_of_label
+    ds = [d for d in f.defs().get(l, []) if not f.is_cleanup(d[0])]
+    if len(ds) < 2:
+        return False
+
+    def is_len(e):
+        return e[0] == "call" and e[1].endswith("::len") and len(e[2]) == 1 and (repr(e[2][0]) == repr(vec) or repr(e[2][0]) in repr(vec) or repr(vec) in repr(e[2][0]))
+    for b, si, node in ds:
+        if si is None:
+            # `end = v.len()` written as the call itself
+            if node.get("dest", {}).get("p") or not strip_generics(callee_name(node)).endswith("::len") or not node["args"]:
+                return False
+            inner = expr_strip_blocks(ex.of_operand(node["args"][0]))
+            if not (repr(inner) == repr(vec) or repr(inner) in repr(vec) or repr(vec) in repr(inner)):
+                return False
+            continue
+        if node["lhs"].get("p") or node["rv"]["r"] != "use":
+            return False
+        a = node["rv"]["a"][0]
+        c = op_const(a) if a.get("k") == "c" else None
+        if c is None:
+            if not is_len(expr_strip_blocks(ex.of_operand(a))):
+                return False
+            continue
+        ok = False
+        for s_ in f.live_blocks():
+            if f.term(s_)["t"] != "switch" or not f.dominates(s_, b):
+                continue
+            for tgt in f.succ(s_):
+                if not (tgt == b or f.dominates(tgt, b)):
+                    continue
+                for lab in edge_label(f, s_, tgt):
+                    rel = relation_of_label(f, lab)
+                    if not rel:
+                        continue
+                    x, y, rs = rel
+                    ex_, ey_ = expr_strip_blocks(ex.of_operand(x)), expr_strip_blocks(ex.of_operand(y))
+                    # len(v) > c or len(v) >= c (either orientation)
+                    if is_len(ex_) and ey_ == ("const", c) and rs <= {"gt", "eq"}:
+                        ok = True
+                    if is_len(ey_) and ex_ == ("const", c) and rs <= {"lt", "eq"}:
+                        ok = True
+        if not ok:
+            return False
+    return True
 
 
 def _index_guarded(f, b, t):
